@@ -35,6 +35,7 @@ pub struct GenOpts {
     pub panic_sites: Vec<PanicSite>,
     pub heap_pct: u64,
     pub targeted_bias: bool,
+    pub call_granular: bool,
 }
 
 impl GenOpts {
@@ -64,6 +65,7 @@ impl GenOpts {
             panic_sites: vec![],
             heap_pct: 0,
             targeted_bias: false,
+            call_granular: false,
         }
     }
 }
@@ -168,6 +170,22 @@ pub fn opts_for(prop: &str) -> GenOpts {
             o.w_loop = 3;
             o.max_ops = 3;
             o.stale_pct = 20;
+        }
+        "C13" => {
+            o.kinds = vec![
+                Kind::ClonedSlice,
+                Kind::ClonedIter,
+                Kind::CopiedSlice,
+                Kind::CopiedIter,
+            ];
+            o.w_composite = 10;
+            o.w_query = 12;
+            o.w_skip = 6;
+            o.w_stop = 5;
+            o.drain = false;
+            o.pre_pct = 30;
+            o.partial_pct = 40;
+            o.call_granular = true;
         }
         "C15" => {
             o.kinds = CONSUMING.to_vec();
@@ -404,6 +422,7 @@ pub fn generate_with(prop: &str, o: &GenOpts, base_seed: u64, index: u64) -> Run
     let mut sim = SimCfg::simple(nthreads, mix(&[run_seed, 0x5eed]));
     sim.strategy = strategy(&mut rng, o.targeted_bias);
     sim.step_cap = 60_000;
+    sim.call_granular = o.call_granular;
     if nthreads >= 2 && rng.chance(o.freeze_pct, 100) {
         let forever = kind.known_size() || rng.chance(1, 3);
         sim.freeze = Some(Freeze {
